@@ -24,8 +24,6 @@ type RelayAddressGeneratorStatic struct {
 	Address string
 
 	Net transport.Net
-
-	listenerPorts relayListenerPorts
 }
 
 // Validate is called on server startup and confirms the RelayAddressGenerator is properly configured.
@@ -91,7 +89,7 @@ func (r *RelayAddressGeneratorStatic) AllocateListener(conf AllocateListenerConf
 		// bind to the same relay address.
 		Control: reuseport.Control,
 	})
-	ln, err := r.listenerPorts.listen(conf.RequestedPort, func() (net.Listener, error) {
+	ln, err := liveRelayListeners.listen(tcpAddr.IP, conf.RequestedPort, func() (net.Listener, error) {
 		return listenConfig.Listen(context.TODO(), conf.Network, tcpAddr.String())
 	})
 	if err != nil {
